@@ -2568,6 +2568,19 @@ func ruleGRDcascadeAll(w *World, r *Report) {
 	if n == 0 {
 		r.Und("GRD-cascade-all", "Engine.VDelete:cascade-unlink", w.Pos(fi.Decl.Pos()), "no VUnlink found in Engine.VDelete or its closures (shape not recognised)")
 	}
+	// the edge lists the cascade works through are read after the node is gone from the index: a link that lands between
+	// an earlier look-up and the delete would never be unlinked
+	gar := w.FuncObj("pkg/core", "DB.GetAllRelations")
+	if gar != nil {
+		isDel := func(in ssa.Instruction) bool {
+			c, ok := in.(*ssa.Call)
+			return ok && c.Call.IsInvoke() && c.Call.Method.Name() == "Delete"
+		}
+		if len(findInstrs(root, callsTo(gar))) > 0 && len(findInstrs(root, isDel)) > 0 {
+			ok, wit := mustPrecede(root, isDel, callsTo(gar), nil)
+			r.Cond(ok, "GRD-cascade-all", "Engine.VDelete:edges-looked-up-after-the-delete", w.Pos(fi.Decl.Pos()), "every GetAllRelations of the cascade lies behind the index delete", "VDelete reads the node's edge lists before the node is deleted from the index: a link that is applied after that look-up but before the delete takes effect is never unlinked — the deleted node stays a live neighbour, source and target, and appears on paths", w.witness(wit)...)
+		}
+	}
 }
 
 // ---------------------------------------------------------------------------------------------------------------
@@ -2584,6 +2597,30 @@ func ruleGRDdimension(w *World, r *Report) {
 		return
 	}
 	fn := w.SSAFunc(fi.Obj)
+	// clause: the dimension fixed by the first insert is answered before any scan for a live node (after the last
+	// delete such a scan finds nothing, answers 0, and the callers' `dim > 0 && len != dim` guards are off)
+	fixed := false
+	for _, b := range fn.Blocks {
+		rt, ok := b.Instrs[len(b.Instrs)-1].(*ssa.Return)
+		if !ok || len(rt.Results) != 1 {
+			continue
+		}
+		for _, rootV := range append(valueRoots(retVal(rt, 0)), retVal(rt, 0)) {
+			ld, ok := rootV.(*ssa.UnOp)
+			if !ok || ld.Op != token.MUL {
+				continue
+			}
+			if fa, ok := ld.X.(*ssa.FieldAddr); ok {
+				if _, f := structFieldName(fa.X.Type(), fa.Field); f == "vectorDim" {
+					rtI := ssa.Instruction(rt)
+					if reach, _ := (pathQuery{fn: fn, target: func(in ssa.Instruction) bool { return in == rtI }, avoid: callsTo(load)}).find(entryPos(fn)); reach {
+						fixed = true
+					}
+				}
+			}
+		}
+	}
+	r.Cond(fixed, "GRD-dimension", "Index.GetDimension:dimension-survives-the-last-delete", w.Pos(fi.Decl.Pos()), "the dimension recorded by the first insert is returned before any scan for a live node", "GetDimension answers from a scan for a live node only: after every vector of the index has been deleted it returns 0 (\"unknown\"), the `dim > 0 && len(v) != dim` guards of add / add-batch / import switch off, and a vector of another dimension is accepted and cut or padded to the arena slot size the first insert fixed")
 	n := 0
 	bad := false
 	var at token.Pos
@@ -2609,9 +2646,10 @@ func ruleGRDdimension(w *World, r *Report) {
 			}
 		}
 	}
-	if n == 0 {
-		// no node is loaded at all: the answer comes from somewhere else (a maintained field) — nothing to check here
-		r.Ok("GRD-dimension", "Index.GetDimension:no-designated-node", w.Pos(fi.Decl.Pos()), "GetDimension loads no node by id")
+	if n == 0 || fixed {
+		// no node is loaded at all, or only as a fallback for an index that never had an insert (vectorDim == 0: there is
+		// no node to find either way) — nothing to check here
+		r.Ok("GRD-dimension", "Index.GetDimension:no-designated-node", w.Pos(fi.Decl.Pos()), "the answer does not hang on a designated node")
 		return
 	}
 	pos := w.Pos(fi.Decl.Pos())
@@ -3564,4 +3602,730 @@ func sameLen(a, b ssa.Value) bool {
 		return false
 	}
 	return ca.Call.Args[0] == cb.Call.Args[0]
+}
+
+// ---------------------------------------------------------------------------------------------------------------
+// EFF-evolve-flag: the flag VEvolve puts on the superseded version is not inherited by the next one.
+// ---------------------------------------------------------------------------------------------------------------
+func ruleEFFevolveFlag(w *World, r *Report) {
+	r.Doc("EFF-evolve-flag", "Engine.VEvolve copies the old node's metadata to the new version only on the edge where the key differs from the marker it sets on the old version itself (_is_historical): a second evolution of the same node does not create a version that is historical from birth", 1)
+	fi := w.Func("pkg/engine", "Engine.VEvolve")
+	setMeta := w.FuncObj("pkg/engine", "Engine.VSetMetadata")
+	if fi == nil || setMeta == nil {
+		r.Und("EFF-evolve-flag", "anchor:Engine.VEvolve/VSetMetadata", "", "anchor lost")
+		return
+	}
+	fn := w.SSAFunc(fi.Obj)
+	// the marker: the constant key of the map literal handed to VSetMetadata
+	marker := ""
+	for _, in := range findInstrs(fn, callsTo(setMeta)) {
+		c := in.(*ssa.Call)
+		for _, rt := range valueRoots(c.Call.Args[len(c.Call.Args)-1]) {
+			mk, ok := rt.(*ssa.MakeMap)
+			if !ok || mk.Referrers() == nil {
+				continue
+			}
+			for _, ref := range *mk.Referrers() {
+				if mu, ok := ref.(*ssa.MapUpdate); ok {
+					if k, ok := constString(mu.Key); ok {
+						marker = k
+					}
+				}
+			}
+		}
+	}
+	if marker == "" {
+		r.Und("EFF-evolve-flag", "Engine.VEvolve:marker", w.Pos(fi.Decl.Pos()), "the marker VEvolve sets on the old version was not found (shape not recognised)")
+		return
+	}
+	// copies: map updates whose key comes from a map iteration (the old node's metadata)
+	n := 0
+	for _, b := range fn.Blocks {
+		for _, in := range b.Instrs {
+			mu, ok := in.(*ssa.MapUpdate)
+			if !ok {
+				continue
+			}
+			rg := fromMapIteration(mu.Key, 0)
+			if rg == nil {
+				continue
+			}
+			// only the copy of the OLD node's metadata (the value ranged over comes from a field load, not a parameter)
+			fromParam := false
+			for _, rt := range valueRoots(rg.X) {
+				if _, ok := rt.(*ssa.Parameter); ok {
+					fromParam = true
+				}
+			}
+			if fromParam {
+				continue
+			}
+			n++
+			isCmp := func(x ssa.Instruction) bool {
+				bo, ok := x.(*ssa.BinOp)
+				if !ok || (bo.Op != token.EQL && bo.Op != token.NEQ) {
+					return false
+				}
+				for _, pair := range [][2]ssa.Value{{bo.X, bo.Y}, {bo.Y, bo.X}} {
+					if s, ok := constString(pair[1]); ok && s == marker && sameVal(pair[0], mu.Key) {
+						return true
+					}
+				}
+				return false
+			}
+			muI := ssa.Instruction(mu)
+			ok2 := false
+			var wit []ssa.Instruction
+			for _, cmp := range findInstrs(fn, isCmp) {
+				bo := cmp.(*ssa.BinOp)
+				t, f := condEdges(bo)
+				eq := t
+				if bo.Op == token.NEQ {
+					eq = f
+				}
+				reach := false
+				for _, e := range eq {
+					if fnd, wt := (pathQuery{fn: fn, target: func(x ssa.Instruction) bool { return x == muI }, avoid: func(x ssa.Instruction) bool { _, nx := x.(*ssa.Next); return nx }}).find(ipos{e.from.Succs[e.succ], -1}); fnd {
+						reach, wit = true, wt
+					}
+				}
+				if len(eq) > 0 && !reach {
+					ok2 = true
+				}
+			}
+			r.Cond(ok2, "EFF-evolve-flag", fmt.Sprintf("Engine.VEvolve:metadata-copy#%d:marker-not-copied", n), w.Pos(mu.Pos()), "the copy is not reached on the edge where the key equals "+marker, "VEvolve copies every metadata key of the old node to the new version, including the "+marker+" flag it sets itself on superseded versions: evolving the same node a second time creates a 'current' version that is historical from birth and drops out of every `"+marker+" != 'true'` search", w.witness(wit)...)
+		}
+	}
+	if n == 0 {
+		r.Und("EFF-evolve-flag", "Engine.VEvolve:metadata-copy", w.Pos(fi.Decl.Pos()), "no copy of the old node's metadata found (shape not recognised)")
+	}
+}
+
+// ---------------------------------------------------------------------------------------------------------------
+// GRD-levelmult: the level multiplier 1/ln(m) is finite.
+// ---------------------------------------------------------------------------------------------------------------
+func ruleGRDlevelmult(w *World, r *Report) {
+	r.Doc("GRD-levelmult", "hnsw.New divides by math.Log(m) only after hnsw.ValidateParams has accepted m, and ValidateParams returns an error for m == 1 (ln 1 = 0: the multiplier would be +Inf, the drawn level overflows and the first insert panics while holding the index lock)", 2)
+	nf := w.Func(hnswPkg, "New")
+	vf := w.Func(hnswPkg, "ValidateParams")
+	if nf == nil || vf == nil {
+		r.Und("GRD-levelmult", "anchor:hnsw.New/ValidateParams", "", "anchor lost")
+		return
+	}
+	fn := w.SSAFunc(nf.Obj)
+	// (a) every division by Log(m) in New lies behind a successful ValidateParams
+	isLogDiv := func(in ssa.Instruction) bool {
+		bo, ok := in.(*ssa.BinOp)
+		if !ok || bo.Op != token.QUO {
+			return false
+		}
+		c, ok := bo.Y.(*ssa.Call)
+		return ok && isCallTo(c, "math", "Log")
+	}
+	if len(findInstrs(fn, isLogDiv)) == 0 {
+		r.Ok("GRD-levelmult", "hnsw.New:log-division-behind-validation", w.Pos(nf.Decl.Pos()), "New no longer divides by math.Log(m)")
+	} else {
+		ok, wit := precedesWithSuccess(fn, callsTo(vf.Obj), isLogDiv)
+		r.Cond(ok, "GRD-levelmult", "hnsw.New:log-division-behind-validation", w.Pos(nf.Decl.Pos()), "ValidateParams has succeeded on every path to the division", "hnsw.New computes 1/math.Log(m) without ValidateParams having accepted m: for m == 1 the multiplier is +Inf, the level drawn for the first vector overflows, the insert panics in make while it holds the index lock, and the index hangs every later caller", w.witness(wit)...)
+	}
+	// (b) ValidateParams: no nil return is reachable on the m == 1 edge
+	vfn := w.SSAFunc(vf.Obj)
+	var mParam *ssa.Parameter
+	if len(vfn.Params) > 0 {
+		mParam = vfn.Params[0]
+	}
+	rejects := false
+	for _, b := range vfn.Blocks {
+		bo, neg, ok := condOf(b)
+		if !ok || mParam == nil {
+			continue
+		}
+		for si := range b.Succs {
+			op, o, ok := factAbout(cfact{cond: bo, holds: (si == 0) != neg}, mParam)
+			if !ok {
+				continue
+			}
+			c, isC := constInt(o)
+			// the edge on which m == 1 is possible ... must not reach a nil return: find the edge that pins m to 1 or below 2
+			pins := isC && (op == token.EQL && c == 1 || op == token.LSS && c == 2 || op == token.LEQ && c == 1)
+			if !pins {
+				continue
+			}
+			nres := vfn.Signature.Results().Len()
+			okRet := func(in ssa.Instruction) bool {
+				rt, ok := in.(*ssa.Return)
+				return ok && len(rt.Results) == nres && isNilConst(retVal(rt, nres-1))
+			}
+			if found, _ := (pathQuery{fn: vfn, target: okRet}).find(ipos{b.Succs[si], -1}); !found {
+				rejects = true
+			}
+		}
+	}
+	r.Cond(rejects, "GRD-levelmult", "hnsw.ValidateParams:rejects-m-equal-1", w.Pos(vf.Decl.Pos()), "on the m == 1 edge no nil return is reachable", "hnsw.ValidateParams accepts m == 1: ln(1) = 0 makes the level multiplier +Inf — the first insert into such an index panics while holding the index lock and wedges it")
+}
+
+// ---------------------------------------------------------------------------------------------------------------
+// CDC-14: a snapshot captures the node slice, the id map and the id counter at one cut.
+// ---------------------------------------------------------------------------------------------------------------
+func ruleCDC14(w *World, r *Report) {
+	r.Doc("CDC-14", "Index.SnapshotData copies the node slice, the external-id map, the id counter, the entry point and the top level within one critical section of metaMu (no RUnlock between them): Add registers a node in the slice and in the map under one lock, so a vector added during the snapshot is in both copies or in neither", 4)
+	fi := w.Func(hnswPkg, "Index.SnapshotData")
+	if fi == nil {
+		r.Und("CDC-14", "anchor:Index.SnapshotData", "", "anchor lost")
+		return
+	}
+	fn := w.SSAFunc(fi.Obj)
+	isRUnlock := func(in ssa.Instruction) bool {
+		return isCallTo(in, "sync", "RWMutex.RUnlock") || isCallTo(in, "sync", "RWMutex.Unlock")
+	}
+	// the copy of the node slice
+	var nodeCopy ssa.Instruction
+	for _, in := range findInstrs(fn, func(in ssa.Instruction) bool { _, ok := isBuiltinCall(in, "copy"); return ok }) {
+		c := in.(*ssa.Call)
+		if strings.HasSuffix(c.Call.Args[0].Type().String(), "[]*"+modPath+"/"+hnswPkg+".Node") {
+			nodeCopy = in
+		}
+	}
+	if nodeCopy == nil {
+		r.Und("CDC-14", "Index.SnapshotData:node-slice-copy", w.Pos(fi.Decl.Pos()), "the copy of the node slice was not found (shape not recognised)")
+		return
+	}
+	fieldRead := func(name string) func(ssa.Instruction) bool {
+		return func(in ssa.Instruction) bool {
+			switch x := in.(type) {
+			case *ssa.Range:
+				for _, rt := range append(valueRoots(x.X), x.X) {
+					if ld, ok := rt.(*ssa.UnOp); ok && ld.Op == token.MUL {
+						if fa, ok := ld.X.(*ssa.FieldAddr); ok {
+							if _, f := structFieldName(fa.X.Type(), fa.Field); f == name {
+								return true
+							}
+						}
+					}
+				}
+			case *ssa.Call:
+				if o := calleeObj(&x.Call); o != nil && o.Pkg() != nil && o.Pkg().Path() == "sync/atomic" && o.Name() == "Load" && len(x.Call.Args) > 0 {
+					if fa, ok := x.Call.Args[0].(*ssa.FieldAddr); ok {
+						if _, f := structFieldName(fa.X.Type(), fa.Field); f == name {
+							return true
+						}
+					}
+				}
+			}
+			return false
+		}
+	}
+	for _, name := range []string{"externalToInternalID", "nodeCounter", "entrypointID", "maxLevel"} {
+		reads := findInstrs(fn, fieldRead(name))
+		if len(reads) == 0 {
+			r.Und("CDC-14", "Index.SnapshotData:"+name, w.Pos(fi.Decl.Pos()), "no read of "+name+" found in SnapshotData (shape not recognised)")
+			continue
+		}
+		ok := true
+		var wit []ssa.Instruction
+		for _, rd := range reads {
+			rdI := rd
+			// same critical section: reachable from the node copy (or the other way round) without an unlock in between
+			f1, _ := (pathQuery{fn: fn, target: func(in ssa.Instruction) bool { return in == rdI }, avoid: isRUnlock}).find(posOf(nodeCopy))
+			f2, _ := (pathQuery{fn: fn, target: func(in ssa.Instruction) bool { return in == nodeCopy }, avoid: isRUnlock}).find(posOf(rd))
+			if !f1 && !f2 {
+				ok = false
+				wit = []ssa.Instruction{rd}
+			}
+		}
+		r.Cond(ok, "CDC-14", "Index.SnapshotData:"+name+":read-at-the-cut-of-the-node-slice", w.Pos(reads[0].Pos()), "read in the critical section that copies the node slice", "SnapshotData reads "+name+" in another critical section than the one that copies the node slice: a vector added in between is in the saved id map (or counted) without a saved node — after a restart its replayed VADD is refused as \"already exists\" and the acknowledged vector can neither be read nor added again", w.witness(wit)...)
+	}
+}
+
+// ---------------------------------------------------------------------------------------------------------------
+// ORD-14: a closed log writer refuses writes deterministically.
+// select { case <-closedCh: …; case writeCh <- req: … } picks at random when both are ready, and after Close both are.
+// ---------------------------------------------------------------------------------------------------------------
+func ruleORD14(w *World, r *Report) {
+	r.Doc("ORD-14", "in LazyAOFWriter.Write every select that can enqueue the write (a send case) together with a receive from the closed channel is preceded on every path by a non-blocking test of the closed channel: after Close the closed case is ready AND the queue has room, and a single select would acknowledge about half of the writes", 1)
+	fi := w.Func("pkg/persistence", "LazyAOFWriter.Write")
+	if fi == nil {
+		r.Und("ORD-14", "anchor:LazyAOFWriter.Write", "", "anchor lost")
+		return
+	}
+	fn := w.SSAFunc(fi.Obj)
+	isClosedRecv := func(st *ssa.SelectState) bool {
+		if st.Dir != types.RecvOnly {
+			return false
+		}
+		for _, rt := range append(valueRoots(st.Chan), st.Chan) {
+			if ld, ok := rt.(*ssa.UnOp); ok && ld.Op == token.MUL {
+				if fa, ok := ld.X.(*ssa.FieldAddr); ok {
+					if _, f := structFieldName(fa.X.Type(), fa.Field); strings.Contains(strings.ToLower(f), "closed") {
+						return true
+					}
+				}
+			}
+		}
+		return false
+	}
+	n := 0
+	for _, in := range findInstrs(fn, func(in ssa.Instruction) bool { _, ok := in.(*ssa.Select); return ok }) {
+		sel := in.(*ssa.Select)
+		hasSend, hasClosed := false, false
+		for _, st := range sel.States {
+			if st.Dir == types.SendOnly {
+				hasSend = true
+			}
+			if isClosedRecv(st) {
+				hasClosed = true
+			}
+		}
+		if !hasSend {
+			continue
+		}
+		n++
+		if !hasClosed {
+			// a bare send (or one raced against something else): the closed test must still come first
+		}
+		pre := func(x ssa.Instruction) bool {
+			s2, ok := x.(*ssa.Select)
+			if !ok || s2.Blocking || s2 == sel {
+				return false
+			}
+			for _, st := range s2.States {
+				if isClosedRecv(st) {
+					return true
+				}
+			}
+			return false
+		}
+		selI := ssa.Instruction(sel)
+		found, wit := (pathQuery{fn: fn, target: func(x ssa.Instruction) bool { return x == selI }, avoid: pre}).find(entryPos(fn))
+		r.Cond(!found, "ORD-14", fmt.Sprintf("LazyAOFWriter.Write:enqueue#%d:closed-tested-first", n), w.Pos(sel.Pos()), "a non-blocking test of the closed channel precedes the enqueueing select", "LazyAOFWriter.Write decides between 'closed' and 'enqueue' in one select: after Close both cases are ready (the closed channel is closed, the queue has room) and select picks at random — about half of the writes issued after Engine.Close are acknowledged, change memory and are in no log", w.witness(wit)...)
+	}
+	if n == 0 {
+		r.Und("ORD-14", "LazyAOFWriter.Write:enqueue", w.Pos(fi.Decl.Pos()), "no select with a send case found in Write (shape not recognised)")
+	}
+}
+
+// ---------------------------------------------------------------------------------------------------------------
+// LCK-10: delete and metadata read-modify-write exclude each other per node.
+// ---------------------------------------------------------------------------------------------------------------
+func ruleLCK10(w *World, r *Report) {
+	r.Doc("LCK-10", "Engine.VDelete removes the node and its metadata while it holds the node's metadata shard lock (getMetadataLockShard), the lock VSetMetadata and VReinforce hold over their read-modify-write; and those two look the node up again after they have the lock, before they write: a write-back cannot put metadata and index entries back for a node a concurrent delete has removed", 3)
+	shard := w.FuncObj("pkg/engine", "Engine.getMetadataLockShard")
+	delMeta := w.FuncObj("pkg/core", "DB.DeleteMetadata")
+	addMeta := w.FuncObj("pkg/core", "DB.AddMetadata")
+	getID := w.FuncObj(hnswPkg, "Index.GetInternalID")
+	if shard == nil || delMeta == nil || addMeta == nil || getID == nil {
+		r.Und("LCK-10", "anchor:getMetadataLockShard/DeleteMetadata/AddMetadata/GetInternalID", "", "anchor lost")
+		return
+	}
+	isShardLock := func(name string) func(ssa.Instruction) bool {
+		return func(in ssa.Instruction) bool {
+			c, ok := in.(*ssa.Call)
+			if !ok || !isCallTo(c, "sync", "Mutex."+name) || len(c.Call.Args) == 0 {
+				return false
+			}
+			for _, rt := range append(valueRoots(c.Call.Args[0]), c.Call.Args[0]) {
+				if sc, ok := rt.(*ssa.Call); ok && calleeObj(&sc.Call) == shard {
+					return true
+				}
+			}
+			return false
+		}
+	}
+	// (a) VDelete
+	if fi := w.Func("pkg/engine", "Engine.VDelete"); fi != nil {
+		fn := w.SSAFunc(fi.Obj)
+		isDel := func(in ssa.Instruction) bool {
+			c, ok := in.(*ssa.Call)
+			if !ok {
+				return false
+			}
+			if c.Call.IsInvoke() && c.Call.Method.Name() == "Delete" {
+				return true
+			}
+			return calleeObj(&c.Call) == delMeta
+		}
+		dels := findInstrs(fn, isDel)
+		ok := len(dels) >= 2 && len(findInstrs(fn, isShardLock("Lock"))) > 0
+		var wit []ssa.Instruction
+		for _, d := range dels {
+			dI := d
+			// reached only with the lock taken and not yet released
+			if f, wt := (pathQuery{fn: fn, target: func(in ssa.Instruction) bool { return in == dI }, avoid: isShardLock("Lock")}).find(entryPos(fn)); f {
+				ok, wit = false, wt
+			}
+			for _, u := range findInstrs(fn, isShardLock("Unlock")) {
+				if f, wt := (pathQuery{fn: fn, target: func(in ssa.Instruction) bool { return in == dI }, avoid: isShardLock("Lock")}).find(posOf(u)); f {
+					ok, wit = false, wt
+				}
+			}
+		}
+		r.Cond(ok, "LCK-10", "Engine.VDelete:deletes-under-the-metadata-shard-lock", w.Pos(fi.Decl.Pos()), "the index delete and the metadata delete are reached only with the node's metadata lock held", "Engine.VDelete removes the node or its metadata without holding the node's metadata shard lock: a VSetMetadata or VReinforce that looked the node up just before writes its merged metadata back afterwards — metadata, inverted-index and text-index entries for a node that no longer exists; filters and text search return an id that VGet reports missing, BM25 statistics count a deleted document", w.witness(wit)...)
+	} else {
+		r.Und("LCK-10", "anchor:Engine.VDelete", "", "anchor lost")
+	}
+	// (b) the two writers
+	for _, name := range []string{"Engine.VSetMetadata", "Engine.VReinforce"} {
+		fi := w.Func("pkg/engine", name)
+		if fi == nil {
+			r.Und("LCK-10", "anchor:"+name, "", "anchor lost")
+			continue
+		}
+		fn := w.SSAFunc(fi.Obj)
+		locks := findInstrs(fn, isShardLock("Lock"))
+		ok := len(locks) > 0
+		var wit []ssa.Instruction
+		for _, l := range locks {
+			if f, wt := (pathQuery{fn: fn, target: callsTo(addMeta), avoid: callsTo(getID)}).find(posOf(l)); f {
+				ok, wit = false, wt
+			}
+		}
+		r.Cond(ok, "LCK-10", name+":node-looked-up-again-under-the-lock", w.Pos(fi.Decl.Pos()), "between taking the lock and the write-back the node is looked up again", name+" writes the merged metadata back without looking the node up again after it has the metadata lock: a delete that finished in between (it holds the same lock) is overwritten by the write-back — the deleted node gets its metadata and index entries back", w.witness(wit)...)
+	}
+}
+
+// ---------------------------------------------------------------------------------------------------------------
+// CDC-15: a link / unlink record applied twice changes nothing.
+// A write that runs while a snapshot or compaction takes its state is in that state and in the shadow buffer; the
+// edge store keeps history, so re-applying is not harmless by itself. Versions carry the timestamps of the records that
+// created and ended them: that is what identifies "this record has been applied".
+// ---------------------------------------------------------------------------------------------------------------
+func ruleCDC15(w *World, r *Report) {
+	r.Doc("CDC-15", "DB.AddEdge changes the edge lists only after a test that no version of the edge was created at the record's timestamp, and the soft branch of DB.RemoveEdge ends the active version only when no version already ends at the record's timestamp (both views): a GLINK/GUNLINK record replayed on top of a snapshot or compacted log that already contains its effect is a no-op", 3)
+	// a comparison of the named GraphEdge/ReverseEdge field with a parameter, in fn or in a pkg/core helper it calls
+	cmpField := func(fn *ssa.Function, field string) []*ssa.BinOp {
+		var out []*ssa.BinOp
+		for _, b := range fn.Blocks {
+			for _, in := range b.Instrs {
+				bo, ok := in.(*ssa.BinOp)
+				if !ok || bo.Op != token.EQL && bo.Op != token.NEQ {
+					continue
+				}
+				for _, pair := range [][2]ssa.Value{{bo.X, bo.Y}, {bo.Y, bo.X}} {
+					ld, ok := pair[0].(*ssa.UnOp)
+					if !ok || ld.Op != token.MUL {
+						continue
+					}
+					fa, ok := ld.X.(*ssa.FieldAddr)
+					if !ok {
+						continue
+					}
+					if _, f := structFieldName(fa.X.Type(), fa.Field); f != field {
+						continue
+					}
+					for _, rt := range append(valueRoots(pair[1]), pair[1]) {
+						if _, isP := rt.(*ssa.Parameter); isP {
+							out = append(out, bo)
+						}
+					}
+				}
+			}
+		}
+		return out
+	}
+	// (a) AddEdge
+	if fi := w.Func("pkg/core", "DB.AddEdge"); fi != nil {
+		fn := w.SSAFunc(fi.Obj)
+		isTest := func(in ssa.Instruction) bool {
+			if bo, ok := in.(*ssa.BinOp); ok {
+				for _, c := range cmpField(fn, "CreatedAt") {
+					if c == bo {
+						return true
+					}
+				}
+				return false
+			}
+			c, ok := in.(*ssa.Call)
+			if !ok {
+				return false
+			}
+			g := c.Call.StaticCallee()
+			return g != nil && inModule(g) && len(g.Blocks) > 0 && len(cmpField(g, "CreatedAt")) > 0
+		}
+		isChange := func(in ssa.Instruction) bool {
+			switch x := in.(type) {
+			case *ssa.MapUpdate:
+				return strings.Contains(x.Map.Type().String(), "GraphEdge") || strings.Contains(x.Map.Type().String(), "ReverseEdge")
+			case *ssa.Store:
+				if fa, ok := x.Addr.(*ssa.FieldAddr); ok {
+					if _, f := structFieldName(fa.X.Type(), fa.Field); f == "DeletedAt" {
+						return true
+					}
+				}
+			}
+			return false
+		}
+		tests := findInstrs(fn, isTest)
+		ok := len(tests) > 0 && len(findInstrs(fn, isChange)) > 0
+		var wit []ssa.Instruction
+		if ok {
+			if f, wt := (pathQuery{fn: fn, target: isChange, avoid: isTest}).find(entryPos(fn)); f {
+				ok, wit = false, wt
+			}
+			// on the "already there" edge nothing is changed
+			for _, t := range tests {
+				v, isV := t.(ssa.Value)
+				if !isV {
+					continue
+				}
+				te, _ := condEdges(v)
+				for _, e := range te {
+					if f, wt := (pathQuery{fn: fn, target: isChange}).find(ipos{e.from.Succs[e.succ], -1}); f {
+						ok, wit = false, wt
+					}
+				}
+			}
+		}
+		r.Cond(ok, "CDC-15", "DB.AddEdge:no-change-when-a-version-was-created-at-this-timestamp", w.Pos(fi.Decl.Pos()), "every change of the edge lists lies behind the not-found edge of a test for a version created at the record's timestamp", "DB.AddEdge applies a link without asking whether a version created at this timestamp already exists: a link that ran while a snapshot (or compaction) was being taken is captured in it and replayed from the shadow buffer — replaying a history of weight changes on top of its own result adds phantom versions, and a query 'as of T' returns the same edge twice", w.witness(wit)...)
+	} else {
+		r.Und("CDC-15", "anchor:DB.AddEdge", "", "anchor lost")
+	}
+	// (b) RemoveEdge: one "already ended at this timestamp" test per view
+	if fi := w.Func("pkg/core", "DB.RemoveEdge"); fi != nil {
+		fn := w.SSAFunc(fi.Obj)
+		cs := cmpField(fn, "DeletedAt")
+		views := map[string]bool{}
+		for _, c := range cs {
+			for _, side := range []ssa.Value{c.X, c.Y} {
+				if ld, ok := side.(*ssa.UnOp); ok && ld.Op == token.MUL {
+					if fa, ok := ld.X.(*ssa.FieldAddr); ok {
+						owner, _ := structFieldName(fa.X.Type(), fa.Field)
+						views[owner] = true
+					}
+				}
+			}
+		}
+		for _, v := range []string{"GraphEdge", "ReverseEdge"} {
+			has := false
+			for o := range views {
+				if strings.HasSuffix(o, v) {
+					has = true
+				}
+			}
+			r.Cond(has, "CDC-15", "DB.RemoveEdge:"+v+":tests-for-a-version-ended-at-this-timestamp", w.Pos(fi.Decl.Pos()), "the soft unlink compares DeletedAt with the record's timestamp in this view", "the soft branch of DB.RemoveEdge does not ask whether a "+v+" version already ends at the record's timestamp: an unlink that is replayed on top of a state that already contains it marks the ACTIVE version — a later re-link — as deleted")
+		}
+	} else {
+		r.Und("CDC-15", "anchor:DB.RemoveEdge", "", "anchor lost")
+	}
+}
+
+// ---------------------------------------------------------------------------------------------------------------
+// GRD-logarg: the decay calculators never hand a possibly negative count to a logarithm.
+// ---------------------------------------------------------------------------------------------------------------
+func ruleGRDlogarg(w *World, r *Report) {
+	r.Doc("GRD-logarg", "in pkg/engine/search_utils.go every integer that is converted and passed to math.Log1p / math.Log / math.Sqrt has a lower bound of 0 on every path (a clamp or an early return): Log1p of a count below -1 is NaN, NaN passes every `<= 0` fallback test, and the decay factor — which must lie in [0,1] — and the score become NaN", 1)
+	n := 0
+	for _, fn := range w.pkgSSAFuncs("pkg/engine") {
+		if fn.Pos().IsValid() && !strings.HasSuffix(w.Fset.Position(fn.Pos()).Filename, "search_utils.go") {
+			continue
+		}
+		k := 0
+		for _, b := range fn.Blocks {
+			for _, in := range b.Instrs {
+				c, ok := in.(*ssa.Call)
+				if !ok || !(isCallTo(c, "math", "Log1p") || isCallTo(c, "math", "Log") || isCallTo(c, "math", "Sqrt")) {
+					continue
+				}
+				cv, ok := c.Call.Args[0].(*ssa.Convert)
+				if !ok || !isIntType(cv.X.Type()) {
+					continue
+				}
+				n++
+				k++
+				var pred *ssa.BasicBlock
+				if len(b.Preds) == 1 {
+					pred = b.Preds[0]
+				}
+				lo := intBound(cv.X, pred, b, false, 0)
+				r.Cond(lo >= 0, "GRD-logarg", fmt.Sprintf("%s:log-of-a-count#%d:count-not-negative", shortFn(fn), k), w.Pos(c.Pos()), "the integer has a lower bound of 0 where it is converted", shortFn(fn)+" passes an integer with no lower bound to a logarithm: for _access_count = -2 (plain metadata, settable by any caller) math.Log1p is NaN, the `stability <= 0` fallback does not catch NaN, the decay factor and the score are NaN, the memory sorts first and the result list cannot be JSON-encoded (200 with an empty body)")
+			}
+		}
+	}
+	if n == 0 {
+		r.Und("GRD-logarg", "sites", "", "no logarithm of an integer count found in search_utils.go (analysis lost its anchors)")
+	}
+}
+
+// ---------------------------------------------------------------------------------------------------------------
+// WEB-11: the profiling handlers are behind the admin prefixes.
+// ---------------------------------------------------------------------------------------------------------------
+func ruleWEB11(w *World, r *Report) {
+	r.Doc("WEB-11", "every route whose handler comes from net/http/pprof (process arguments, heap, goroutines) matches one of the path prefixes that the auth middleware tests in the same `||` chain as /system/ — the prefixes that require an admin token", 3)
+	mwf := w.Func("internal/server", "Server.authMiddleware")
+	if mwf == nil {
+		r.Und("WEB-11", "anchor:Server.authMiddleware", "", "anchor lost")
+		return
+	}
+	// the admin prefixes: constants of the HasPrefix calls in the short-circuit chain that starts at "/system/"
+	var admin []string
+	for _, f := range append([]*ssa.Function{w.SSAFunc(mwf.Obj)}, closuresOf(w.SSAFunc(mwf.Obj))...) {
+		for _, b := range f.Blocks {
+			for _, in := range b.Instrs {
+				c, ok := in.(*ssa.Call)
+				if !ok || !isCallTo(c, "strings", "HasPrefix") {
+					continue
+				}
+				if s, ok := constString(c.Call.Args[1]); !ok || s != "/system/" {
+					continue
+				}
+				admin = append(admin, "/system/")
+				// follow the false edges of the chain
+				cur := b
+				for hop := 0; hop < 8; hop++ {
+					if len(cur.Succs) != 2 {
+						break
+					}
+					nxt := cur.Succs[1]
+					found := ""
+					for _, x := range nxt.Instrs {
+						if c2, ok := x.(*ssa.Call); ok && isCallTo(c2, "strings", "HasPrefix") {
+							if s2, ok := constString(c2.Call.Args[1]); ok {
+								found = s2
+							}
+						}
+					}
+					if found == "" || len(nxt.Preds) != 1 {
+						break
+					}
+					admin = append(admin, found)
+					cur = nxt
+				}
+			}
+		}
+	}
+	if len(admin) == 0 {
+		r.Und("WEB-11", "Server.authMiddleware:admin-prefixes", w.Pos(mwf.Decl.Pos()), "the `/system/` prefix test of the middleware was not found (shape not recognised)")
+		return
+	}
+	n := 0
+	for _, fn := range w.pkgSSAFuncs("internal/server") {
+		for _, b := range fn.Blocks {
+			for _, in := range b.Instrs {
+				c, ok := in.(*ssa.Call)
+				if !ok {
+					continue
+				}
+				o := calleeObj(&c.Call)
+				if o == nil || o.Pkg() == nil || o.Pkg().Path() != "net/http" || (o.Name() != "HandleFunc" && o.Name() != "Handle") || len(c.Call.Args) < 3 {
+					continue
+				}
+				h, ok := c.Call.Args[2].(*ssa.Function)
+				if !ok || h.Pkg == nil || h.Pkg.Pkg.Path() != "net/http/pprof" {
+					continue
+				}
+				pat, ok := constString(c.Call.Args[1])
+				if !ok {
+					continue
+				}
+				if i := strings.Index(pat, " "); i >= 0 {
+					pat = pat[i+1:]
+				}
+				n++
+				covered := false
+				for _, p := range admin {
+					if strings.HasPrefix(pat, p) {
+						covered = true
+					}
+				}
+				r.Cond(covered, "WEB-11", "route:"+pat+":admin-only", w.Pos(c.Pos()), "matches an admin prefix of the middleware ("+strings.Join(admin, ", ")+")", "the profiling route "+pat+" is outside the prefixes the middleware reserves for admin tokens ("+strings.Join(admin, ", ")+"): a read-only token gets the process arguments (where --auth-token=<root> is passed), heap and goroutine dumps")
+			}
+		}
+	}
+	if n == 0 {
+		r.Ok("WEB-11", "no-pprof-routes", "", "no handler of net/http/pprof is registered")
+	}
+}
+
+// ---------------------------------------------------------------------------------------------------------------
+// GRD-path-exhausted: FindPath's round loop ends with its frontiers, not only with max_depth.
+// ---------------------------------------------------------------------------------------------------------------
+func ruleGRDpathExhausted(w *World, r *Report) {
+	r.Doc("GRD-path-exhausted", "the round loop of Engine.FindPath has an exit that is taken when the frontier queues are empty (a test of len(queue) == 0 inside the loop whose empty edge leaves the loop): the number of rounds is bounded by the graph, not only by the caller's max_depth", 1)
+	fi := w.Func("pkg/engine", "Engine.FindPath")
+	if fi == nil {
+		r.Und("GRD-path-exhausted", "anchor:Engine.FindPath", "", "anchor lost")
+		return
+	}
+	fn := w.SSAFunc(fi.Obj)
+	// the round loop: the outermost loop whose header compares a counter with the maxDepth parameter
+	var header *ssa.BasicBlock
+	for _, b := range fn.Blocks {
+		bo, _, ok := condOf(b)
+		if !ok {
+			continue
+		}
+		isHeader := false
+		for _, p := range b.Preds {
+			if b.Dominates(p) {
+				isHeader = true
+			}
+		}
+		if !isHeader {
+			continue
+		}
+		for _, side := range []ssa.Value{bo.X, bo.Y} {
+			for _, rt := range append(valueRoots(side), side) {
+				if p, ok := rt.(*ssa.Parameter); ok && isIntType(p.Type()) {
+					header = b
+				}
+			}
+		}
+	}
+	if header == nil {
+		r.Und("GRD-path-exhausted", "Engine.FindPath:round-loop", w.Pos(fi.Decl.Pos()), "the loop bounded by the depth parameter was not found (shape not recognised)")
+		return
+	}
+	body := naturalLoop(header)
+	exits := 0
+	for b := range body {
+		bo, neg, ok := condOf(b)
+		if !ok || b == header {
+			continue
+		}
+		// len(q) == 0 / != 0 / > 0 ...
+		var lenCall *ssa.Call
+		var c int64 = -1
+		for _, pair := range [][2]ssa.Value{{bo.X, bo.Y}, {bo.Y, bo.X}} {
+			if lc, ok := pair[0].(*ssa.Call); ok {
+				if _, isLen := isBuiltinCall(lc, "len"); isLen {
+					if k, ok := constInt(pair[1]); ok {
+						lenCall, c = lc, k
+					}
+				}
+			}
+		}
+		if lenCall == nil || c != 0 || !isSliceType(lenCall.Call.Args[0].Type()) {
+			continue
+		}
+		for si := range b.Succs {
+			holds := (si == 0) != neg
+			empty := bo.Op == token.EQL && holds || bo.Op == token.NEQ && !holds || bo.Op == token.GTR && !holds && lenCall == bo.X || bo.Op == token.LEQ && holds && lenCall == bo.X
+			if !empty {
+				continue
+			}
+			// does the empty edge leave the loop within a few unconditional or same-kind steps?
+			cur := b.Succs[si]
+			for hop := 0; hop < 4 && cur != nil; hop++ {
+				if !body[cur] {
+					exits++
+					break
+				}
+				if bo2, neg2, ok2 := condOf(cur); ok2 {
+					// a second `len(other) == 0` test: follow its empty edge
+					nxt := (*ssa.BasicBlock)(nil)
+					for sj := range cur.Succs {
+						h2 := (sj == 0) != neg2
+						if bo2.Op == token.EQL && h2 || bo2.Op == token.NEQ && !h2 {
+							nxt = cur.Succs[sj]
+						}
+					}
+					cur = nxt
+				} else if len(cur.Succs) == 1 {
+					cur = cur.Succs[0]
+				} else {
+					break
+				}
+			}
+		}
+	}
+	r.Cond(exits > 0, "GRD-path-exhausted", "Engine.FindPath:round-loop:ends-with-empty-frontiers", w.Pos(header.Instrs[0].Pos()), "an empty-frontier test inside the loop leaves it", "the round loop of FindPath runs up to max_depth rounds whether or not any node is left to expand, and max_depth comes from the request unchecked: POST /graph/actions/find-path with max_depth around 9e18 between two unconnected nodes keeps a core spinning through empty rounds — the call never returns")
 }
